@@ -100,8 +100,22 @@ func (r *responseStorer) StoreResponse(
 
 	if refIndex < 0 || refIndex >= len(refs) {
 		refs = append(refs, refEntry) // New response reference
+		refIndex = len(refs) - 1
 	} else {
 		refs[refIndex] = refEntry // Update existing response reference
+	}
+	// A reference equal to the new one (same variant, same identifier) is
+	// obsolete - e.g. an earlier response with "Vary: *", which never matches
+	// and is stored again by every request. Dropping it keeps the references of
+	// an index distinct, so that it cannot grow beyond the number of variants.
+	for i := len(refs) - 1; i >= 0; i-- {
+		if i != refIndex && refs[i].ResponseID == responseID && refs[i].Vary == vary &&
+			maps.Equal(refs[i].VaryResolved, varyResolved) {
+			refs = slices.Delete(refs, i, i+1)
+			if i < refIndex {
+				refIndex--
+			}
+		}
 	}
 
 	return r.cache.SetRefs(urlKey, refs)
